@@ -108,3 +108,74 @@ func c16Conv(c *Ctx) {
 		}
 	}
 }
+
+// SetPolicy: the user changes the policy set of a party between sessions (the public Policies field)
+func (s *Sys) SetPolicy(who, pol int) {
+	otr3.VerifSetPolicies(s.ps[who].c, pol)
+	s.ps[who].pol = pol
+	s.ops = append(s.ops, fmt.Sprintf("OSetPolicy %d %d", who, pol))
+	s.obs = append(s.obs, L())
+	s.trace = append(s.trace, fmt.Sprintf("SetPolicy(%d, %d)", who, pol))
+	s.calls = append(s.calls, callRec{who: who, human: "probe"})
+}
+
+// a session (or an exchange that stalls) on one version, ended in every way there is, then a peer whose policy has
+// changed starts again: the new exchange completes, on the highest version both allow - nothing of the old one sticks
+func renegotiations(c *Ctx) {
+	both := polV2 | polV3
+	for _, first := range []int{polV3, polV2} {
+		for ending := 0; ending < 4; ending++ {
+			for _, second := range []int{polV2, polV3, both} {
+				for starter := 1; starter <= 2; starter++ {
+					pols := []int{both, both}
+					s := newSys(pols, c.R.U64())
+					trig := fmt.Sprintf("first=%d,ending=%d,second=%d,starter=%d", first, ending, second, starter)
+					s.SetPolicy(2, first)
+					if ending == 3 {
+						// an exchange that stalls: party 1 has answered the offer, nothing else arrives; it gives up
+						s.Query(2, 1)
+						s.dropFrom(1, s.ps[1].pending)
+						s.End(1)
+					} else {
+						if !s.Handshake(1, 2) {
+							c.Violate("ake-incomplete", trig, "the first exchange did not complete", s.trace)
+							continue
+						}
+						switch ending {
+						case 0: // the peer ends, we learn it, and end too
+							s.End(2)
+							s.Pump(1, 2, 6)
+							s.End(1)
+						case 1: // we end, the peer learns it
+							s.End(1)
+							s.Pump(1, 2, 6)
+						default: // both end, the notices cross
+							s.End(1)
+							s.End(2)
+							s.Pump(1, 2, 6)
+						}
+					}
+					s.Pump(1, 2, 6)
+					s.tick(200)
+					s.SetPolicy(2, second)
+					ok := s.Handshake(starter, 3-starter)
+					c.Count("renegotiation")
+					c.Rep.Evaluations++
+					want := 3
+					if second == polV2 {
+						want = 2
+					}
+					v1, v2 := otr3.VerifSnapshot(s.ps[1].c).Version, otr3.VerifSnapshot(s.ps[2].c).Version
+					if s.panicked {
+						c.Violate("panic", trig, "panic in a renegotiation", s.trace)
+					} else if !ok || s.ps[1].c.GetSSID() != s.ps[2].c.GetSSID() {
+						c.Violate("ake-incomplete", trig, fmt.Sprintf("after the old session was ended a new exchange with a peer that allows version(s) %d did not complete (encrypted %v/%v, versions %d/%d)", second, s.ps[1].c.IsEncrypted(), s.ps[2].c.IsEncrypted(), v1, v2), s.trace)
+					} else if v1 != want || v2 != want {
+						c.Violate("version-not-highest-common", trig, fmt.Sprintf("the new session runs version %d/%d, the highest version both sides allow is %d", v1, v2, want), s.trace)
+					}
+					c.AddScenario(s, pols)
+				}
+			}
+		}
+	}
+}
